@@ -189,7 +189,7 @@ This decides `no new unaudited panic/recursion/loop site`, the enumerated necess
     ctx.extra.insert("bodies_total".into(), json!(facts.bodies.len()));
     ctx.extra.insert("bodies_reachable".into(), json!(reach.len()));
     ctx.extra.insert("entry_points".into(), json!(roots.len()));
-    ctx.floor("C08/bodies", facts.bodies.len(), 1500);
+    ctx.floor("C08/bodies", facts.bodies.len(), 1000);
     ctx.floor("C08/entry-points", roots.len(), 40);
     for i in reach.iter().take(4000) {
         ctx.func(&facts.bodies[*i].path);
@@ -207,9 +207,9 @@ This decides `no new unaudited panic/recursion/loop site`, the enumerated necess
         m
     });
     ctx.extra.insert("sites_by_kind".into(), json!(kinds));
-    ctx.floor("C08.panic/sites", sites.len(), 108);
-    ctx.floor("C08.panic/explicit", *kinds.get("explicit").unwrap_or(&0), 8);
-    ctx.floor("C08.panic/unwrap", *kinds.get("unwrap").unwrap_or(&0), 22);
+    ctx.floor("C08.panic/sites", sites.len(), 50);
+    ctx.floor("C08.panic/explicit", *kinds.get("explicit").unwrap_or(&0), 3);
+    ctx.floor("C08.panic/unwrap", *kinds.get("unwrap").unwrap_or(&0), 10);
 
     // positive control: the classifier must recognise the canonical shapes
     for (callee, macros, want) in [
